@@ -362,7 +362,7 @@ PROPS["C12"]["tests"].append(dict(name="TestVF_C12Hostile", env=dict(VERIF_CASE_
                                   quick=dict(checks=960, shards=16, timeout=900, vmem_kb=6291456), thorough=dict(checks=40000, shards=16, timeout=10000, vmem_kb=6291456)))
 
 PROPS["C17"]["tests"].append(dict(name="TestVF_C17Overlap", env=dict(VERIF_CASE_LIMIT=300),
-                                  quick=dict(checks=32, shards=16, timeout=900, shrink="60s"), thorough=dict(checks=640, shards=16, timeout=6000, shrink="120s")))
+                                  quick=dict(checks=32, shards=16, timeout=900, shrink="60s"), thorough=dict(checks=320, shards=16, timeout=6000, shrink="120s")))
 
 PROPS["C12"]["tests"].append(dict(name="TestVF_C12Relay", env=dict(VERIF_CASE_LIMIT=120),
                                   quick=dict(checks=1600, shards=16, timeout=600), thorough=dict(checks=64000, shards=16, timeout=6000)))
